@@ -216,6 +216,11 @@ def run(tier, seed):
     two['name'] = 'reset2'
     sp = specs.build(two, variants=['v0'], ops=('new', 'value', 'tforce', 'reset', 'inspect'), slots=1, delete_flags=(False,), force_tasks={'v0': ['t0']})
     plan.append((two, sp, 3, 6))
+    # ... and a forced recomputation that FAILS has not happened: the next request still runs
+    two_f = dag_world(2, {(0, 1)})
+    two_f['name'] = 'forcefail2'
+    sp = specs.build(two_f, variants=['v0'], ops=('new', 'value', 'tforce', 'fail'), slots=1, delete_flags=(False,), force_tasks={'v0': ['t0']}, faults=[('T0', 'raise')], max_faults=1)
+    plan.append((two_f, sp, 3, 6))
     memchain = dag_world(3, {(0, 1), (1, 2)})
     memchain['name'] = 'memchain3'
     memchain['tasks']['T1']['data'] = 'inmemory'
